@@ -1579,6 +1579,12 @@ static void exec_protocol(Plan const& p, Report& rep)
             ld const N = r.calls;
             ld const var = (r.calls >= 2) ? (r.sumsq - r.sum * r.sum / N) / N / (N - 1) : 0.0L;
             if (!(var > 0) || !std::isfinite(var) || !std::isfinite(1 / var)) defined = false;
+            // (the numeric type has to be able to hold the variance, its inverse and what they are made of)
+            else if (!in_exponent_range(p.nt, var) || !in_exponent_range(p.nt, 1 / var) || !in_exponent_range(p.nt, r.sumsq / N) ||
+                !in_exponent_range(p.nt, (r.sum / N) * (r.sum / N)) || !in_exponent_range(p.nt, (r.sum / N) / var))
+            {
+                defined = false;
+            }
         }
         if (defined && fb && !fa && rho[k] > 0 && rho[k] < 1e6L && unc < 0.25L && vc * eps_of(p.nt) < 1e-3L)
         {
